@@ -840,6 +840,11 @@ def check_r073(fx, rep, cg, dm):
 
         def is_top(t):
             t = strip_c(t)
+            # `len.checked_sub(1).ok_or(err)?` is `len - 1` on the path that goes on (an empty stack leaves with the error)
+            if isinstance(t, tuple) and t[0] == "call" and isinstance(t[1], str) and F.strip_generics(t[1]).split("::")[-1] in ("ok_or", "ok_or_else") and t[2]:
+                t = strip_c(t[2][0])
+            if isinstance(t, tuple) and t[0] == "call" and isinstance(t[1], str) and F.strip_generics(t[1]).split("::")[-1] == "checked_sub" and len(t[2]) == 2:
+                t = ("bin", "Sub", t[2][0], t[2][1])
             return isinstance(t, tuple) and t[0] == "bin" and t[1] == "Sub" and strip_c(t[3]) == ("lit", "1") and strip_c(t[2])[0] == "call" and F.strip_generics(str(strip_c(t[2])[1])).endswith("::len") and "self.data" in T.short(strip_c(t[2]))
 
         subs = []
